@@ -40,7 +40,7 @@ theorem merge_comm_sem (O : Oracle) (hO : O.Certified) (tie : PTerm → Bool) (t
 
 /-- a `ValueError` from merging means the conjunction of the guarantees is empty under the joint assumptions -/
 theorem merge_error_infeasible (O : Oracle) (hO : O.Certified) (tie : PTerm → Bool) (tac : Nat → PTerm → TL → List Var → Bool → Elim.TacticRes)
-    (c1 c2 : Contract PTerm) (h : merge (polyPrims O tie false tac) c1 c2 = .error .valueError) :
+    (c1 c2 : Contract PTerm) (hp1 : TL.Proper c1.g) (hp2 : TL.Proper c2.g) (h : merge (polyPrims O tie false tac) c1 c2 = .error .valueError) :
     ¬ ∃ v, TL.holds (Gen.list_union c1.a c2.a) v ∧ TL.holds (Gen.list_union c1.g c2.g) v := by
   unfold merge Alg.merge Alg.mkContract at h
   simp only at h
@@ -50,7 +50,12 @@ theorem merge_error_infeasible (O : Oracle) (hO : O.Certified) (tie : PTerm → 
   rename_i e hs
   injection h with h; subst h
   have hs' : Poly.simplify O tie (Gen.list_union c1.g c2.g) (some (Gen.list_union c1.a c2.a)) = .error .valueError := hs
-  rcases Pacti.C07.simplify_error_infeasible O hO tie _ _ _ hs' with ⟨_, hinf⟩ | he
+  have hpu : TL.Proper (Gen.list_union c1.g c2.g) := by
+    intro t ht
+    rcases (Gen.mem_list_union _ _ t).mp ht with h' | h'
+    · exact hp1 t h'
+    · exact hp2 t h'
+  rcases Pacti.C07.simplify_error_infeasible O hO tie _ hpu _ _ hs' with ⟨_, hinf⟩ | he
   · exact hinf
   · cases he
 
